@@ -1,4 +1,589 @@
+// C09: optional outputs are transparent; operations are pure and history independent
+// (DESIGN 4.2).  One seed = three forked processes of the same pristine parent:
+//   A  executes the probes only (each probe is the first library activity ever),
+//   B  executes a seeded history with the probes interleaved (each at least twice),
+//   C  executes the same steps in reverse order after a different prewarm set.
+// The parent compares the probes' digests; B and C additionally run the in-process
+// oracles (argument immutability, rand / FP-environment neutrality, output subsets,
+// block binding, aliasing, rejected calls leave no trace).
 #include "checks.h"
+#include "../core/vsched.h"
+#include <unistd.h>
+#include <sys/wait.h>
+#include <fenv.h>
+#include <xmmintrin.h>
+#include <cmath>
+#include <cstring>
+#include <sstream>
+#include <algorithm>
+#include <map>
+
 namespace vsim {
-void run_c09(const RunOpts&, Result& res) { res.status = "harness_error"; res.detail = "not built yet"; }
+namespace {
+
+enum Role : uint8_t { R_HIST = 0, R_PROBE = 1, R_WARM_B = 2, R_WARM_C = 3 };
+enum Fault : uint8_t { F_NONE = 0, F_REJECT = 1 };
+const int E_PROT = 3, T_PROT = 2;   // slots [0,E_PROT) / [0,T_PROT) are never written by a history
+
+struct ChildOut {
+  std::vector<std::pair<std::string, uint64_t> > digests;   // probe key -> digest (one entry per execution)
+  std::vector<long> digest_step;
+  Result res;
+};
+
+std::string probe_key(const Step& s) {
+  std::ostringstream o;
+  o << (int)s.group << ":" << s.op.op << ":" << (int)s.op.a << ":" << (int)s.op.b << ":" << (int)s.op.c << ":" << (int)s.op.ka
+    << ":" << (int)s.op.kb << ":" << (int)s.op.mask << ":" << (int)s.op.variant << ":" << s.op.s;
+  return o.str();
 }
+
+uint64_t storage_hash(const GroupCtx& gc, int skip_elem, int skip_tan) {
+  Fnv f;
+  const GroupVT* vt = gc.vt;
+  for (int i = 0; i < vt->NE; ++i) {
+    if (i == skip_elem) continue;
+    for (int w = 0; w < 2; ++w) f.bytes(vt->elem_addr(gc.st, i, w), vt->scalar_size * vt->rep);
+  }
+  for (int i = 0; i < vt->NT; ++i) {
+    if (i == skip_tan) continue;
+    for (int w = 0; w < 2; ++w) f.bytes(vt->tan_addr(gc.st, i, w), vt->scalar_size * vt->dof);
+  }
+  double p[32];
+  for (int i = 0; i < vt->NP; ++i) { vt->get_pt(gc.st, i, p); f.bytes(p, sizeof(double) * vt->dim); }
+  return f.h;
+}
+
+unsigned fp_control() { return ((unsigned)fegetround() << 16) ^ (_mm_getcsr() & ~0x3Fu); }
+
+struct Runner {
+  const Plan& plan;
+  Ctx& ctx;
+  ChildOut& out;
+  Result& res;
+  bool full;          // run the in-process oracles (B, C)
+  long idx;
+  struct RandFirst { uint64_t state[5]; uint64_t digest; };
+  std::map<std::string, RandFirst> rand_first;
+  Runner(const Plan& p, Ctx& c, ChildOut& o, bool full_) : plan(p), ctx(c), out(o), res(o.res), full(full_), idx(0) {}
+
+  std::string cls(const char* oracle, const GroupVT* vt, int op) {
+    return std::string(oracle) + "/" + vt->name + "/" + (op_info(op).name ? op_info(op).name : "?");
+  }
+
+  static double maxabs(const double* v, int n) { double m = 0; for (int i = 0; i < n; ++i) if (std::fabs(v[i]) > m) m = std::fabs(v[i]); return m; }
+
+  // all subsets of the optional outputs of one operation
+  bool check_masks(const GroupCtx& gc, const Step& s) {
+    const OpInfo& inf = op_info(s.op.op);
+    const GroupVT* vt = gc.vt;
+    const int k = inf.nout;
+    if (k == 0) return true;
+    const int full_mask = (1 << k) - 1;
+    std::vector<Out> o((size_t)full_mask + 1);
+    for (int m = 0; m <= full_mask; ++m) {
+      OpRec op = s.op; op.mask = (uint8_t)m;
+      // vary block binding between the evaluations
+      op.variant = (uint8_t)((s.op.variant & ~(V_BLOCK1 | V_BLOCK2)) | ((m * 5 + s.op.a + idx) & (V_BLOCK1 | V_BLOCK2)));
+      gc.vt->exec(gc.st, &op, &o[m]);
+      res.add("n.mask_evaluations", 1);
+      if (o[m].flags & 1) {
+        res.fail("output_block", cls("output_block", vt, op.op),
+                 std::string(inf.name) + " in " + vt->name + " with output mask " + std::to_string(m) +
+                 " changed memory outside the block of the larger matrix an optional output was bound to", idx);
+        return false;
+      }
+    }
+    const Out& F = o[full_mask];
+    if (F.status == 9) return true;
+    const double em = vt->is_float ? 1.1920929e-07 : 2.220446049250313e-16;
+    for (int m = 0; m < full_mask; ++m) {
+      if (o[m].status != F.status || o[m].digest_v() != F.digest_v()) {
+        std::ostringstream d; d.precision(17);
+        d << "returned value of " << inf.name << " in " << vt->name << " depends on which optional outputs are requested: mask "
+          << m << " vs " << full_mask << " (status " << status_name(o[m].status) << "/" << status_name(F.status) << ")";
+        for (int i = 0; i < F.nv && i < o[m].nv; ++i) if (std::memcmp(&o[m].v[i], &F.v[i], 8) != 0) { d << " first diff at coeff " << i << ": " << o[m].v[i] << " vs " << F.v[i]; break; }
+        res.fail("value_depends_on_outputs", cls("value_depends_on_outputs", vt, s.op.op), d.str(), idx);
+        return false;
+      }
+      for (int which = 1; which <= 2; ++which) {
+        if (!(m & which)) continue;
+        const double* a = which == 1 ? o[m].j1 : o[m].j2;
+        const double* b = which == 1 ? F.j1 : F.j2;
+        const int na = which == 1 ? o[m].n1 : o[m].n2, nb = which == 1 ? F.n1 : F.n2;
+        bool bad = na != nb;
+        const double tol = 16 * em * std::max(maxabs(a, na), maxabs(b, nb));
+        int worst = -1;
+        for (int i = 0; i < na && !bad; ++i) {
+          if (std::memcmp(&a[i], &b[i], 8) == 0) continue;
+          res.add("n.jacobian_not_bit_identical", 1);
+          if (!(std::fabs(a[i] - b[i]) <= tol)) { bad = true; worst = i; }
+        }
+        if (bad) {
+          std::ostringstream d; d.precision(17);
+          d << "Jacobian " << which << " of " << inf.name << " in " << vt->name << " differs between output subsets " << m << " and "
+            << full_mask;
+          if (worst >= 0) d << ": entry " << worst << " = " << a[worst] << " vs " << b[worst] << " (tol " << tol << ")";
+          res.fail("jacobian_depends_on_outputs", cls("jacobian_depends_on_outputs", vt, s.op.op), d.str(), idx);
+          return false;
+        }
+        res.add("n.jacobian_subset_comparisons", 1);
+      }
+    }
+    return true;
+  }
+
+  // X op= Y through the mutating spelling must equal the value-returning computation
+  bool check_compound(const GroupCtx& gc, const Step& s, const Out& after) {
+    const GroupVT* vt = gc.vt;
+    (void)after;
+    if (s.op.op == OP_M_ALIAS) {
+      if (after.status != 0) return true;
+      if (!all_finite(after.v, after.nv) || !all_finite(after.j1, after.n1)) return true;
+      if (after.nv != after.n1 || std::memcmp(after.v, after.j1, sizeof(double) * after.nv) != 0) {
+        std::ostringstream d; d.precision(17);
+        d << "result assigned back onto its operand differs from the unaliased computation (" << vt->name << ", alias form " << (int)(s.op.c % AL__N)
+          << ", storage kind " << (int)s.op.ka << ")";
+        for (int i = 0; i < after.nv; ++i) if (std::memcmp(&after.v[i], &after.j1[i], 8) != 0) { d << " coeff " << i << ": expected " << after.v[i] << " got " << after.j1[i]; break; }
+        res.fail("aliasing", cls("aliasing", vt, s.op.op), d.str(), idx);
+        return false;
+      }
+      res.add("n.alias_checks", 1);
+    }
+    return true;
+  }
+
+  bool exec_one(const Step& s, bool is_probe) {
+    const GroupCtx& gc = ctx.g[s.group];
+    const GroupVT* vt = gc.vt;
+    const OpInfo& inf = op_info(s.op.op);
+    int skip_e = -1, skip_t = -1;
+    if (inf.cls == C_MUT_E) skip_e = s.op.a;
+    if (inf.cls == C_MUT_T) skip_t = s.op.a;
+    // value-returning op whose result the plan stores into a slot
+    const ValKind vk = op_value_kind(s.op.op);
+    const uint64_t h0 = full ? storage_hash(gc, skip_e, skip_t) : 0;
+    const unsigned fp0 = fp_control();
+    const uint64_t d0 = vs_rand_draws();
+    uint64_t st_before[5]; vs_rand_save(st_before);
+
+    // pre-compute the value-returning counterpart of compound assignments (before the operand changes)
+    Out expect; expect.status = -1;
+    if (full && (s.op.op == OP_M_PLUSEQ || s.op.op == OP_M_MULEQ)) {
+      OpRec e = s.op; e.op = (s.op.op == OP_M_PLUSEQ) ? OP_RPLUS : OP_COMPOSE; e.mask = 0; e.variant = 0;
+      vt->exec(gc.st, &e, &expect);
+    }
+
+    Out o;
+    vt->exec(gc.st, &s.op, &o);
+    res.add((std::string("op.") + inf.name).c_str(), 1);
+    res.add("steps", 1);
+    if (o.status == 9) { res.add("n.not_applicable", 1); return true; }
+
+    if (is_probe) {
+      out.digests.push_back(std::make_pair(probe_key(s), o.digest()));
+      out.digest_step.push_back(idx);
+    }
+    if (s.op.fault == F_REJECT) {
+      res.add("f.rejected_call", 1);
+      if (o.status != (int)s.op.fparam) {
+        res.fail("rejected_call", cls("rejected_call", vt, s.op.op),
+                 std::string("call that must be refused (") + inf.name + " in " + vt->name + ") returned " + status_name(o.status), idx);
+        return false;
+      }
+    } else if (o.status != 0 && !is_probe) {
+      // histories only contain calls on valid operands
+      res.add("n.history_exceptions", 1);
+    }
+    if (!full) return true;
+
+    // argument immutability
+    if (storage_hash(gc, skip_e, skip_t) != h0) {
+      res.fail("argument_modified", cls("argument_modified", vt, s.op.op),
+               std::string(inf.name) + " in " + vt->name + " modified an operand (or another stored element) it takes by const reference", idx);
+      return false;
+    }
+    // no hidden state: FP environment, rand()
+    if (fp_control() != fp0) {
+      res.fail("fp_environment", cls("fp_environment", vt, s.op.op), std::string(inf.name) + " changed the floating-point control state", idx);
+      return false;
+    }
+    if (!inf.draws_rand && vs_rand_draws() != d0) {
+      res.fail("rand_consumed", cls("rand_consumed", vt, s.op.op), std::string(inf.name) + " in " + vt->name + " consumed rand()", idx);
+      return false;
+    }
+    if (inf.draws_rand && o.status == 0) {
+      // Random / setRandom depend on the rand() stream only: replaying the stream position of the first
+      // such call of this kind, after whatever history happened since, reproduces its result bit for bit
+      res.add("n.random_ops", 1);
+      const std::string key = std::to_string((int)s.group) + "/" + std::to_string(s.op.op) + "/" + std::to_string((int)s.op.ka);
+      auto it = rand_first.find(key);
+      if (it == rand_first.end()) {
+        RandFirst rf; std::memcpy(rf.state, st_before, sizeof rf.state); rf.digest = o.digest_v();
+        rand_first[key] = rf;
+      } else {
+        uint64_t now[5]; vs_rand_save(now);
+        vs_rand_restore(it->second.state);
+        Out again; vt->exec(gc.st, &s.op, &again);
+        vs_rand_restore(now);
+        // put the slot back to what the plan's own call produced
+        if (inf.cls == C_MUT_E) vt->set_elem(gc.st, s.op.a, 2, o.v);
+        if (inf.cls == C_MUT_T) vt->set_tan(gc.st, s.op.a, 2, o.v);
+        res.add("n.random_replays", 1);
+        if (again.digest_v() != it->second.digest) {
+          res.fail("random_history_dependence", cls("random_history_dependence", vt, s.op.op),
+                   std::string(inf.name) + " in " + vt->name + " replayed from the same rand() stream position returned a different element after other library activity", idx);
+          return false;
+        }
+      }
+    }
+    // compound assignment == value-returning form
+    if (expect.status == 0 && o.status == 0 && all_finite(expect.v, expect.nv)) {
+      if (expect.nv != o.nv || std::memcmp(expect.v, o.v, sizeof(double) * o.nv) != 0) {
+        std::ostringstream d; d.precision(17);
+        d << inf.name << " in " << vt->name << " (storage kind " << (int)s.op.ka << ") differs from the value-returning computation";
+        for (int i = 0; i < o.nv; ++i) if (std::memcmp(&expect.v[i], &o.v[i], 8) != 0) { d << ": coeff " << i << " expected " << expect.v[i] << " got " << o.v[i]; break; }
+        res.fail("aliasing", cls("aliasing", vt, s.op.op), d.str(), idx);
+        return false;
+      }
+      res.add("n.compound_checks", 1);
+    }
+    if (!check_compound(gc, s, o)) return false;
+    // keep view buffers and owning objects in step after a mutation (so both storages stay valid operands)
+    if (inf.cls == C_MUT_E) { double c[32]; vt->get_elem(gc.st, s.op.a, s.op.ka == K_MAP ? 1 : 0, c); vt->set_elem(gc.st, s.op.a, 2, c); }
+    if (inf.cls == C_MUT_T) { double c[32]; vt->get_tan(gc.st, s.op.a, s.op.ka == K_MAP ? 1 : 0, c); vt->set_tan(gc.st, s.op.a, 2, c); }
+    if (inf.cls != C_MUT_E && inf.cls != C_MUT_T && s.dst >= 0 && o.status == 0) {
+      if (vk == VK_ELEM && o.nv == vt->rep) vt->set_elem(gc.st, s.dst, 2, o.v);
+      if (vk == VK_TAN && o.nv == vt->dof) vt->set_tan(gc.st, s.dst, 2, o.v);
+    }
+    // output subsets (const operations only; the operands are unchanged by now)
+    if (inf.is_const && inf.nout > 0 && s.op.fault == F_NONE) return check_masks(gc, s);
+    return true;
+  }
+
+  void apply_set(const Step& s) {
+    const GroupCtx& gc = ctx.g[s.group];
+    switch (s.kind) {
+      case ST_SETE: gc.vt->set_elem(gc.st, s.slot, 2, s.vals.data()); break;
+      case ST_SETT: gc.vt->set_tan(gc.st, s.slot, 2, s.vals.data()); break;
+      case ST_SETP: gc.vt->set_pt(gc.st, s.slot, s.vals.data()); break;
+      case ST_SETVEC: { int sl[16]; int n = 0; for (double v : s.vals) if (n < 16) sl[n++] = (int)v; gc.vt->set_vec(gc.st, sl, n, s.slot == 1); } break;
+      default: break;
+    }
+  }
+
+  // role: 'A' probes only, 'B' forward, 'C' reversed
+  void run(char role) {
+    vs_rand_mode(1, plan.seed ^ 0x5151);
+    for (const Step& s : plan.steps) if (s.kind != ST_OP) apply_set(s);
+    std::vector<size_t> order;
+    for (size_t i = 0; i < plan.steps.size(); ++i) if (plan.steps[i].kind == ST_OP) order.push_back(i);
+    if (role == 'A') {
+      std::map<std::string, bool> seen;
+      for (size_t i : order) {
+        const Step& s = plan.steps[i];
+        if (s.op.thread != R_PROBE) continue;
+        std::string k = probe_key(s);
+        if (seen[k]) continue;
+        seen[k] = true;
+        idx = (long)i;
+        if (!exec_one(s, true)) return;
+      }
+      return;
+    }
+    const uint8_t warm = role == 'B' ? R_WARM_B : R_WARM_C;
+    for (size_t i : order) if (plan.steps[i].op.thread == warm) { idx = (long)i; if (!exec_one(plan.steps[i], false)) return; res.add("f.prewarm", 1); }
+    if (role == 'C') std::reverse(order.begin(), order.end());
+    for (size_t i : order) {
+      const Step& s = plan.steps[i];
+      if (s.op.thread != R_PROBE && s.op.thread != R_HIST) continue;
+      idx = (long)i;
+      if (!exec_one(s, s.op.thread == R_PROBE)) return;
+    }
+  }
+};
+
+// ---- generation ------------------------------------------------------------------------------------------
+struct Gen {
+  Rng rng;
+  Plan plan;
+  std::vector<const GroupVT*> vts;
+  explicit Gen(uint64_t seed) : rng(seed) {}
+
+  bool applicable(const GroupVT* vt, int op) {
+    if (op == OP_ROTATION && !(vt->caps & CAP_ROTATION)) return false;
+    if (op == OP_TRANSFORM && (vt->caps & CAP_BUNDLE)) return false;
+    if ((op == OP_SMALLADJ || op == OP_BRACKET || op == OP_BRACKET_S) && !(vt->caps & CAP_SMALLADJ)) return false;
+    if (op == OP_AVG && vt->dof == 1) return false;
+    if (op == OP_DECASTELJAU && vt->is_float) return false;
+    if (op == OP_M_NORMALIZE && !(vt->caps & CAP_NORMALIZE)) return false;
+    if (op == OP_M_SUBVIEW_WRITE && !(vt->caps & (CAP_ASSO3 | CAP_BUNDLE))) return false;
+    if (op == OP_TM_STREAM || op == OP_M_ASSIGN_EIGEN || op == OP_TM_ASSIGN_EIGEN) return true;
+    return true;
+  }
+
+  void fill_params(Step& s, const GroupVT* vt, int ne, int nt) {
+    const OpInfo& inf = op_info(s.op.op);
+    int op = s.op.op;
+    s.op.a = (uint8_t)rng.below((inf.cls == C_TAN || inf.cls == C_MUT_T) ? nt : ne);
+    if (inf.cls == C_STATIC && (op == OP_VEE || op == OP_BRACKET_S)) s.op.a = (uint8_t)rng.below(nt);
+    if (inf.cls == C_STATIC && op == OP_BRACKET_S) s.op.b = (uint8_t)rng.below(nt);
+    switch (inf.arg2) {
+      case A_ELEM: s.op.b = (uint8_t)rng.below(ne); break;
+      case A_TAN: s.op.b = (uint8_t)rng.below(nt); break;
+      case A_PT: s.op.b = (uint8_t)rng.below(vt->NP); break;
+      default: break;
+    }
+    if (op == OP_TM_LOG_INTO) s.op.b = (uint8_t)rng.below(ne);
+    s.op.c = (uint8_t)rng.below(nt);
+    if (op == OP_GENERATOR || op == OP_T_GENERATOR_M) s.op.c = (uint8_t)rng.below(vt->dof);
+    if (op == OP_SMOOTH_PHI) { s.op.c = (uint8_t)(1 + rng.below(4)); s.op.s = rng.unit(); }
+    if (op == OP_INTERP_SLERP || op == OP_INTERP_CUBIC || op == OP_INTERP_SMOOTH) s.op.s = round_scalar(vt, rng.unit());
+    if (op == OP_ISAPPROX || op == OP_T_ISAPPROX) s.op.s = vt->eps * (rng.chance(0.5) ? 1 : 1e6);
+    if (op == OP_T_SCALE) s.op.s = round_scalar(vt, rng.uniform(-2, 2));
+    if (op == OP_TM_MULEQ || op == OP_TM_DIVEQ) s.op.s = round_scalar(vt, rng.uniform(0.5, 1.5));
+    if (op == OP_M_ALIAS) s.op.c = (uint8_t)rng.below(AL__N);
+    if (op == OP_M_SUBVIEW_WRITE) s.op.c = (uint8_t)rng.below(3);
+    if (op == OP_M_COEFFWRITE || op == OP_TM_COEFFWRITE) s.op.variant = (uint8_t)rng.below(3);
+    s.op.ka = (uint8_t)rng.below(3);
+    s.op.kb = (uint8_t)rng.below(3);
+    if (inf.cls == C_MUT_E || inf.cls == C_MUT_T) s.op.ka = (uint8_t)rng.below(2);
+    if (op == OP_BRACKET || op == OP_JT_MUL) { s.op.ka = K_OWN; s.op.kb = K_OWN; }
+    if (inf.nout) s.op.mask = (uint8_t)rng.below(1u << inf.nout);
+    if (inf.nout && rng.chance(0.3)) s.op.variant |= (uint8_t)rng.below(4);
+    if (rng.chance(0.2) && (op == OP_INTERP_SLERP || op == OP_INTERP_CUBIC || op == OP_INTERP_SMOOTH || op == OP_T_SCALE ||
+                            op == OP_TM_PLUSEQ || op == OP_TM_MINUSEQ)) s.op.variant |= V_ALT;
+  }
+
+  Step probe(int g) {
+    const GroupVT* vt = vts[g];
+    std::vector<int> ops;
+    for (int op = 0; op < OP__END; ++op) {
+      const OpInfo& inf = op_info(op);
+      if (!inf.name || !inf.is_const || inf.draws_rand || !applicable(vt, op)) continue;
+      if (inf.cls == C_ALG && (op == OP_AVG_BIINV || op == OP_AVG || op == OP_AVG_FL || op == OP_AVG_FR || op == OP_DECASTELJAU)) continue;  // read the shared container, which a history may refill
+      ops.push_back(op);
+    }
+    Step s = make_op(g, ops[rng.below((uint32_t)ops.size())], 0, 0, -1);
+    s.op.thread = R_PROBE;
+    fill_params(s, vt, E_PROT, T_PROT);
+    if (op_info(s.op.op).arg2 == A_PT) s.op.b = 0;
+    // interpolation reads the tangent slots c and c+1: both must be protected
+    if (s.op.op == OP_INTERP_SLERP || s.op.op == OP_INTERP_CUBIC || s.op.op == OP_INTERP_SMOOTH) s.op.c = 0;
+    return s;
+  }
+
+  Step hist(int g, int& squarings) {
+    const GroupVT* vt = vts[g];
+    for (;;) {
+      int op = (int)rng.below(OP__END);
+      const OpInfo& inf = op_info(op);
+      if (!inf.name || !applicable(vt, op)) continue;
+      if ((op == OP_M_MULEQ || op == OP_M_ALIAS) && ++squarings > 6) continue;
+      Step s = make_op(g, op, 0, 0, -1);
+      s.op.thread = R_HIST;
+      fill_params(s, vt, 6, 4);
+      // destinations never touch the protected slots
+      if (inf.cls == C_MUT_E) s.op.a = (uint8_t)(E_PROT + rng.below(6 - E_PROT));
+      if (inf.cls == C_MUT_T) s.op.a = (uint8_t)(T_PROT + rng.below(4 - T_PROT));
+      if (op == OP_M_SUBVIEW_WRITE || op == OP_M_COEFFWRITE || op == OP_M_ASSIGN || op == OP_M_ASSIGN_EIGEN || op == OP_M_MOVE_ASSIGN) { /* b any */ }
+      ValKind vk = op_value_kind(op);
+      if (inf.cls != C_MUT_E && inf.cls != C_MUT_T && rng.chance(0.5)) {
+        if (vk == VK_ELEM) s.dst = E_PROT + (int)rng.below(6 - E_PROT);
+        if (vk == VK_TAN) s.dst = T_PROT + (int)rng.below(4 - T_PROT);
+      }
+      return s;
+    }
+  }
+
+  Step rejected(int g) {
+    const GroupVT* vt = vts[g];
+    Step s = make_op(g, OP_GENERATOR, 0, 0, -1);
+    s.op.thread = R_HIST; s.op.fault = F_REJECT;
+    switch (rng.below(5)) {
+      case 0: s.op.op = OP_GENERATOR; s.op.c = (uint8_t)(signed char)(rng.chance(0.5) ? -1 : vt->dof); s.op.fparam = 1; break;
+      case 1: s.op.op = OP_INTERP_SLERP + (uint16_t)rng.below(3); s.op.a = 0; s.op.b = 1; s.op.s = rng.chance(0.5) ? -0.5 : 1.25; s.op.fparam = 2; break;
+      case 2: s.op.op = OP_SMOOTH_PHI; s.op.c = rng.chance(0.5) ? 0 : 5; s.op.s = 0.5; s.op.fparam = 3; break;
+      case 3: s.op.op = (uint16_t)(OP_AVG_BIINV + rng.below(4)); s.op.variant = V_ALT; s.op.fparam = 2; break;
+      default: s.op.op = OP_DECASTELJAU; s.op.variant = V_ALT; s.op.fparam = 2; break;
+    }
+    return s;
+  }
+
+  void generate(uint64_t seed, bool thorough) {
+    plan.check = "C09"; plan.seed = seed;
+    int ngr = rng.chance(0.2) ? 2 : 1;
+    for (int i = 0; i < ngr; ++i) { const GroupVT* vt = group((int)rng.below(n_groups())); plan.groups.push_back(vt->name); vts.push_back(vt); }
+    for (int g = 0; g < ngr; ++g) {
+      const GroupVT* vt = vts[g];
+      for (int i = 0; i < vt->NE; ++i) {
+        ElemSpec sp; sp.neg_hemisphere = rng.chance(0.3); sp.lin_lo = 1e-2; sp.lin_hi = 10;
+        if (rng.chance(0.15)) sp.angle = std::fabs(rng.logmag(1e-10, 1e-5));
+        double c[32]; gen_elem(vt, rng, sp, c);
+        plan.steps.push_back(make_set(ST_SETE, g, i, c, vt->rep));
+      }
+      for (int i = 0; i < vt->NT; ++i) {
+        TanSpec sp; sp.angle = rng.chance(0.25) ? std::fabs(rng.logmag(1e-10, 1e-6)) : rng.uniform(0.01, 3); sp.lin_lo = 1e-2; sp.lin_hi = 5;
+        double t[32]; gen_tan(vt, rng, sp, t);
+        plan.steps.push_back(make_set(ST_SETT, g, i, t, vt->dof));
+      }
+      for (int i = 0; i < vt->NP; ++i) { double p[32]; gen_pt(vt, rng, 1e-2, 10, p); plan.steps.push_back(make_set(ST_SETP, g, i, p, vt->dim)); }
+      Step v; v.kind = ST_SETVEC; v.group = (uint8_t)g; int n = 2 + rng.below(3); for (int i = 0; i < n; ++i) v.vals.push_back(i);
+      plan.steps.push_back(v);
+    }
+    // probes
+    std::vector<Step> probes;
+    int np = 4 + (int)rng.below(thorough ? 16 : 9);
+    for (int i = 0; i < np; ++i) probes.push_back(probe((int)rng.below(ngr)));
+    // prewarm sets
+    for (int r = 0; r < 2; ++r) {
+      int k = (int)rng.below(5);
+      for (int i = 0; i < k; ++i) {
+        int g = (int)rng.below(ngr);
+        static const int warm_ops[] = {OP_IDENTITY, OP_ZERO, OP_GENERATOR, OP_INNERWEIGHTS, OP_ADJ, OP_RJAC, OP_INNER, OP_EQ};
+        Step s = make_op(g, warm_ops[rng.below(8)], 0, 0, -1);
+        fill_params(s, vts[g], 6, 4);
+        s.op.thread = r == 0 ? R_WARM_B : R_WARM_C;
+        s.op.mask = 0; s.op.variant = 0;
+        plan.steps.push_back(s);
+      }
+    }
+    // history with probes interleaved, each probe at least twice
+    int hl = (int)rng.below(thorough ? 120 : 61);
+    std::vector<Step> seq;
+    int squarings = 0;
+    for (int i = 0; i < hl; ++i) {
+      int g = (int)rng.below(ngr);
+      seq.push_back(rng.chance(0.08) ? rejected(g) : hist(g, squarings));
+    }
+    for (int rep = 0; rep < 2; ++rep)
+      for (const Step& p : probes) {
+        size_t pos = seq.empty() ? 0 : rng.below((uint32_t)seq.size() + 1);
+        seq.insert(seq.begin() + pos, p);
+      }
+    for (const Step& s : seq) plan.steps.push_back(s);
+    plan.set("hist_len", hl);
+  }
+};
+
+// ---- child <-> parent -------------------------------------------------------------------------------------------
+void send_child(int fd, const ChildOut& co) {
+  std::ostringstream o;
+  for (size_t i = 0; i < co.digests.size(); ++i) o << "D\t" << co.digest_step[i] << "\t" << co.digests[i].second << "\t" << co.digests[i].first << "\n";
+  for (auto& kv : co.res.num) o << "N\t" << kv.first << "\t" << kv.second << "\n";
+  for (auto& kv : co.res.str) o << "S\t" << kv.first << "\t" << kv.second << "\n";
+  if (co.res.failed()) {
+    std::string d = co.res.detail; for (char& c : d) if (c == '\n' || c == '\t') c = ' ';
+    o << "F\t" << co.res.oracle << "\t" << co.res.cls << "\t" << co.res.step_index << "\t" << d << "\n";
+  }
+  o << "E\n";
+  std::string s = o.str();
+  size_t off = 0;
+  while (off < s.size()) { ssize_t k = write(fd, s.data() + off, s.size() - off); if (k <= 0) break; off += (size_t)k; }
+}
+
+bool recv_child(int fd, ChildOut& co) {
+  std::string all; char buf[65536]; ssize_t k;
+  while ((k = read(fd, buf, sizeof buf)) > 0) all.append(buf, (size_t)k);
+  std::istringstream is(all);
+  std::string line; bool ended = false;
+  while (std::getline(is, line)) {
+    if (line == "E") { ended = true; break; }
+    std::vector<std::string> f; size_t p = 0;
+    for (;;) { size_t q = line.find('\t', p); if (q == std::string::npos) { f.push_back(line.substr(p)); break; } f.push_back(line.substr(p, q - p)); p = q + 1; }
+    if (f[0] == "D" && f.size() >= 4) { co.digest_step.push_back(std::strtol(f[1].c_str(), nullptr, 10)); co.digests.push_back(std::make_pair(f[3], std::strtoull(f[2].c_str(), nullptr, 10))); }
+    else if (f[0] == "N" && f.size() >= 3) co.res.num[f[1]] = std::strtod(f[2].c_str(), nullptr);
+    else if (f[0] == "S" && f.size() >= 3) co.res.str[f[1]] = f[2];
+    else if (f[0] == "F" && f.size() >= 5) co.res.fail(f[1].c_str(), f[2], f[4], std::strtol(f[3].c_str(), nullptr, 10));
+  }
+  return ended;
+}
+
+}  // namespace
+
+void run_c09(const RunOpts& o, Result& res) {
+  vs_statics_init();
+  Plan plan;
+  if (o.replay) plan = *o.replay;
+  else { Gen g(o.seed); g.generate(o.seed, o.thorough); plan = g.plan; }
+  if (o.record) *o.record = plan;
+
+  ChildOut co[3];
+  const char roles[3] = {'A', 'B', 'C'};
+  for (int r = 0; r < 3; ++r) {
+    int pfd[2];
+    if (pipe(pfd) != 0) { res.status = "harness_error"; res.detail = "pipe"; return; }
+    fflush(stdout); fflush(stderr);
+    pid_t pid = fork();
+    if (pid == 0) {
+      close(pfd[0]);
+      Ctx ctx; std::string err;
+      ChildOut mine;
+      if (!ctx.init(plan, err)) { mine.res.status = "harness_error"; mine.res.detail = err; send_child(pfd[1], mine); _exit(2); }
+      Runner run(plan, ctx, mine, r != 0);
+      run.run(roles[r]);
+      {
+        char hb[32]; snprintf(hb, sizeof hb, "%016llx", (unsigned long long)vs_first_use_hash());
+        mine.res.str[std::string("fuhash_") + roles[r]] = hb;
+        int ms = vs_statics_check();
+        if (ms >= 0) { mine.res.add("d.static_mutated", 1); mine.res.str["d.static_mutated_name"] = vs_static_name(ms); }
+        mine.res.num[std::string("statics_initialised_") + roles[r]] = vs_statics_initialised();
+      }
+      send_child(pfd[1], mine);
+      _exit(0);
+    }
+    close(pfd[1]);
+    bool ok = recv_child(pfd[0], co[r]);
+    close(pfd[0]);
+    int wst = 0; waitpid(pid, &wst, 0);
+    if (!ok || !WIFEXITED(wst) || WEXITSTATUS(wst) != 0) {
+      // a crashed / sanitizer-killed child: let the driver classify stderr; report as harness error otherwise
+      res.status = "harness_error";
+      res.detail = std::string("process ") + roles[r] + " ended abnormally (wait status " + std::to_string(wst) + ")";
+      res.str["role"] = std::string(1, roles[r]);
+      return;
+    }
+  }
+  // merge counters
+  for (int r = 0; r < 3; ++r) {
+    for (auto& kv : co[r].res.num) res.num[kv.first] += kv.second;
+    for (auto& kv : co[r].res.str) res.str[kv.first] = kv.second;
+  }
+  res.num["hist_len"] = (double)plan.cfg_int("hist_len", 0);
+  res.num["processes"] = 3;
+  {
+    Fnv f;
+    for (const Step& s : plan.steps) if (s.kind == ST_OP) { f.i32(s.op.op); f.i32(s.op.a); f.i32(s.op.b); f.i32(s.op.thread); f.i32(s.group); }
+    char hb[32]; snprintf(hb, sizeof hb, "%016llx", (unsigned long long)f.h); res.str["hist"] = hb;
+    res.str["fuhash"] = res.str["fuhash_B"] + res.str["fuhash_C"];
+    std::string gs; for (size_t i = 0; i < plan.groups.size(); ++i) gs += (i ? "+" : "") + plan.groups[i];
+    res.str["groups"] = gs;
+  }
+  // in-process violations of B / C
+  for (int r = 1; r < 3 && !res.failed(); ++r)
+    if (co[r].res.failed()) { res.fail(co[r].res.oracle.c_str(), co[r].res.cls, std::string("[process ") + roles[r] + "] " + co[r].res.detail, co[r].res.step_index); }
+  if (res.failed()) return;
+  // history independence: every execution of a probe has the digest of the pristine process
+  std::map<std::string, uint64_t> ref;
+  for (auto& d : co[0].digests) ref[d.first] = d.second;
+  long compared = 0;
+  for (int r = 1; r < 3 && !res.failed(); ++r)
+    for (size_t i = 0; i < co[r].digests.size(); ++i) {
+      auto it = ref.find(co[r].digests[i].first);
+      if (it == ref.end()) continue;
+      ++compared;
+      if (it->second != co[r].digests[i].second) {
+        long st = co[r].digest_step[i];
+        const Step& s = plan.steps[(size_t)st];
+        const GroupVT* vt = group_by_name(plan.groups[s.group].c_str());
+        std::ostringstream d;
+        d << "probe " << op_info(s.op.op).name << " on " << (vt ? vt->name : "?") << " (plan step " << st << ") returned a different result in process "
+          << roles[r] << " (after other library activity) than as the first library call of a fresh process";
+        res.fail("history_dependence", std::string("history_dependence/") + (vt ? vt->name : "?") + "/" + op_info(s.op.op).name, d.str(), st);
+        break;
+      }
+    }
+  res.num["n.probe_comparisons"] = (double)compared;
+}
+
+}  // namespace vsim
